@@ -291,15 +291,16 @@ def gen(rng, n, cid0=0):
         for h in g.hit: cov[h] = cov.get(h, 0) + 1
         cov['sig%d' % sig] = cov.get('sig%d' % sig, 0) + 1
     # every signature a few times, then weighted random; a few very long strings
+    skip = TUPLE_SREF if finding_open('C04-F3') else set()   # while C04-F3 was open these instantiations crashed the backend
     for sig in ids:
-        if sig in TUPLE_SREF: continue
+        if sig in skip: continue
         for _ in range(3): add(sig)
     for sig in (11, 15, 16, 18, 31, 42, 98):
         for ln in HUGE_LENS:
             add(sig, huge=ln, maxn=2)
     while len(cases) < n:
         sig = rng.choice(ids)
-        if sig in TUPLE_SREF: continue
+        if sig in skip: continue
         add(sig)
     return cases, cov, cid
 
@@ -411,6 +412,13 @@ def make_monitor(side):
 FINDINGS_FILE = os.path.join(VERIF, 'known_findings.d', 'C04.json')
 
 
+def finding_open(fid):
+    try:
+        return any(f.get('id') == fid and f.get('status') == 'open' for f in json.load(open(FINDINGS_FILE)))
+    except (OSError, ValueError):
+        return False
+
+
 def make_known_match(side):
     """open findings (known_findings.d/C04.json), each keyed by the instantiations it was replayed on
     and by the exact shape of the failure; anything else on the same instantiations is still reported"""
@@ -427,7 +435,7 @@ def make_known_match(side):
             exp = sanitize(s['cs'])
             if s['msgs'][0].count(34) >= exp.count(34) + 2:   # the element is wrapped in double quotes
                 return 'C04-F2 a DirectFormatCodec user type nested in a container/optional/map is formatted on the backend as a quoted, escaped string, not as formatter<T> prints it at the call site'
-        if sig in TUPLE_SREF and (msg.startswith('implementation did not survive') or msg.startswith('no end-to-end observation')
+        if finding_open('C04-F3') and sig in TUPLE_SREF and (msg.startswith('implementation did not survive') or msg.startswith('no end-to-end observation')
                                   or msg.startswith('bytes consumed by the decoder')):
             return 'C04-F3 std::tuple<StringRef,...>: the tuple decoder runs Codec<std::string_view> on the pointer+size bytes Codec<StringRef> wrote; consumed != written, the backend then reads outside the record'
         return None
